@@ -57,6 +57,35 @@ def run_vh(args, profile="dev", timeout=900, env=None, stdin=None, ok_codes=(0,)
     return out, p.returncode
 
 
+def run_stall_watchdog(cmd, stall_s=45, cwd=None):
+    """Run a child that announces its progress line by line; kill it only when no line has arrived for stall_s seconds
+    (a hang of the code under test), however long the whole batch takes.  Returns (returncode or None if killed, stdout, stalled)."""
+    import threading
+    p = subprocess.Popen(cmd, cwd=cwd or VERIF, stdout=subprocess.PIPE, stderr=subprocess.PIPE, text=True, bufsize=1)
+    lines, last = [], [time.time()]
+
+    def reader():
+        for line in p.stdout:
+            lines.append(line)
+            last[0] = time.time()
+    th = threading.Thread(target=reader, daemon=True)
+    th.start()
+    err = []
+    te = threading.Thread(target=lambda: err.append(p.stderr.read()), daemon=True)
+    te.start()
+    stalled = False
+    while p.poll() is None:
+        time.sleep(0.2)
+        if time.time() - last[0] > stall_s:
+            stalled = True
+            p.kill()
+            break
+    p.wait()
+    th.join(timeout=5)
+    te.join(timeout=2)
+    return (None if stalled else p.returncode), "".join(lines), stalled, (err[0] if err else "")
+
+
 def write_ndjson(path, records):
     os.makedirs(os.path.dirname(path), exist_ok=True)
     with open(path, "w") as f:
